@@ -14,7 +14,7 @@ def run(chk):
     if (not only or "proof" in only) and chk.tier == "thorough":
         try:
             from contracts import C05_lean
-            C05_lean.run_lean(chk)
+            chk.guard(C05_lean.run_lean)
         except ImportError:
             chk.notes.append("Lean lemmas not built in this round")
     if not only or "bounded" in only:
